@@ -8,12 +8,19 @@ against the ESC models and the frame is pushed through the bus model with
 position-coded inputs.
 """
 import asyncio
+import contextlib
 import itertools
+import os
+import shutil
 import struct
+import tempfile
+import types
 
-from mc import bussim, core, ecparse, ecworld
+from mc import bussim, core, ecparse, ecworld, seams
 
-from ebpfcat.ebpfcat import Device, SyncGroup, SyncManager
+import ebpfcat.lock as lock_mod
+from ebpfcat.ebpfcat import (
+    Device, ParallelEtherCat, SyncGroup, SyncManager)
 from ebpfcat.terminals import AerotechBase
 
 PROP = "C18"
@@ -81,8 +88,11 @@ def required(seq):
 def run_case(case, res):
     seq, ngroups, *rest = case
     split = rest[0] if rest else 0
+    master = rest[1] if len(rest) > 1 else "simple"
     res.count("evaluations")
     jcase = dict(seq=seq, groups=ngroups, split=split)
+    if master != "simple":
+        jcase["master"] = master
 
     def bad(exp, seen, what, sig=None):
         res.violation(jcase, exp, seen, sig=core.digest([sig or what]),
@@ -91,7 +101,19 @@ def run_case(case, res):
     size = 16 + sum(12 + ln for _, ln, _ in model_dgs)
     must_reject = size > MAX or len(model_dgs) > 15
     w = ecworld.World()
+    tmpdir = None
+    stack = contextlib.ExitStack()
     try:
+        if master == "fmmulock":
+            # the logical windows of a master that shares its interface with
+            # other processes: the real FMMULock on a private file (its
+            # random process slot is the harness's)
+            tmpdir = tempfile.mkdtemp(prefix="c18-")
+            stack.enter_context(seams.own_random(
+                [lock_mod], dict(randrange=lambda a, b=None: 0x5d)))
+            w.ec.fmmu_lock_file = lock_mod.FMMULock(tmpdir + "/fmmu")
+            w.ec.get_fmmu_addr = types.MethodType(
+                ParallelEtherCat.get_fmmu_addr, w.ec)
         windows = []
         for g in range(ngroups):
             terms = []
@@ -265,6 +287,13 @@ def run_case(case, res):
                 return
         res.outcomes.add(("accepted", len(model_dgs)))
     finally:
+        stack.close()
+        if tmpdir:
+            try:
+                os.close(w.ec.fmmu_lock_file.fd)
+            except Exception:
+                pass
+            shutil.rmtree(tmpdir, ignore_errors=True)
         w.close()
 
 
@@ -312,6 +341,17 @@ def cases(ctx):
         if not ctx.quick:
             out.append((seq, 3))
     out.append((((700, 700, True, True),), 3))
+    # the same with the windows handed out by a real FMMULock (a master
+    # sharing its interface), up to four groups
+    for seq in itertools.product(ks[::5], repeat=2):
+        for ng in (2, 3, 4) if not ctx.quick else (3,):
+            out.append((seq, ng, 0, "fmmulock"))
+    for ng in (2, 3, 4):
+        out.append((((700, 700, True, True),), ng, 0, "fmmulock"))
+        out.append((((1100, 0, False, True), (0, 300, True, True)), ng, 0,
+                    "fmmulock"))
+        out.append((((0, 6, True, True),), ng, 0, "fmmulock"))
+        out.append((((6, 6, True, True),), ng, 0, "fmmulock"))
     return out
 
 
@@ -338,5 +378,6 @@ def replay(ctx, rep):
     res = core.Result()
     c = rep["case"]
     seq = tuple(tuple(s) for s in c["seq"])
-    run_case((seq, c["groups"], c.get("split", 0)), res)
+    run_case((seq, c["groups"], c.get("split", 0),
+              c.get("master", "simple")), res)
     return res.violations
